@@ -284,8 +284,12 @@ canary('no broker update after submission', ExecutionHandler, '__call__', 'self.
 class _Days:
     """self.business_days: an abstract strictly increasing sequence of business days (the pandas part is bounded, C12-B)"""
 
+    enumerated = False
+
     def __vc_enumerate__(self):
-        return self
+        e = _Days()
+        e.enumerated = True
+        return e
 
     def __vc_loop__(self):
         return self
@@ -293,7 +297,7 @@ class _Days:
 
 class DayLoop:
     def __init__(self, H, lid, it, env):
-        self.H = H
+        self.H, self.enumerated = H, it.enumerated
 
     def havoc(self, env, names, state=()):
         heap.check_state(ITER_LOOP, state, ())
@@ -307,6 +311,8 @@ class DayLoop:
         d = c._const('business_day', z3.IntSort())
         c.assume(shims.CIVIL(shims.YF(d), shims.MF(d), shims.DF(d)) == d)      # civil-from-fields inverts the field accessors
         self.H.d = d
+        if not self.enumerated:            # `for bday in self.business_days` - the same loop without the unused index
+            return shims.SymDay(d)
         return (SymNum(z3.ToReal(c._const('index', z3.IntSort()))), shims.SymDay(d))
 
     def preserved(self, env):
@@ -317,6 +323,7 @@ class DayLoop:
 
 
 ITER_LOOP = 'DailyBusinessDaySimulationEngine.__iter__#for enumerate(self.business_days)#0'
+ITER_LOOP_PLAIN = 'DailyBusinessDaySimulationEngine.__iter__#for self.business_days#0'
 
 
 @harness('DailyBusinessDaySimulationEngine.__iter__', props=['C12', 'C14'], layer='L4',
@@ -328,7 +335,7 @@ def clock_iter(c):
     pre, post = bool(c.bool('pre_market')), bool(c.bool('post_market'))
     e = object.__new__(DailyBusinessDaySimulationEngine)
     e.pre_market, e.post_market, e.business_days = pre, post, _Days()
-    heap.LOOPSPEC[ITER_LOOP] = lambda lid, it, env: DayLoop(H, lid, it, env)
+    heap.LOOPSPEC[ITER_LOOP] = heap.LOOPSPEC[ITER_LOOP_PLAIN] = lambda lid, it, env: DayLoop(H, lid, it, env)
     out, kind = [], 'exit'
     try:
         try:
@@ -338,6 +345,7 @@ def clock_iter(c):
             kind = 'day'
     finally:
         heap.LOOPSPEC.pop(ITER_LOOP, None)
+        heap.LOOPSPEC.pop(ITER_LOOP_PLAIN, None)
     if kind != 'day':
         c.ob('no-event-without-a-business-day', len(out) == 0)
         return
